@@ -156,8 +156,13 @@ class Interp:
             if isinstance(op, (ast.IsNot, ast.NotEq)):
                 if isinstance(op, ast.NotEq) and (l[0] == "other" or r[0] == "other") and l != r and not (l == NONE or r == NONE): raise Unsupported("!= on an opaque value")
                 return B(not same(l, r))
-            if isinstance(op, (ast.In, ast.NotIn)) and isinstance(r, tuple) and r[0] == "tuple":
-                hit = any(same(l, x) for x in r[1])
+            if isinstance(op, (ast.In, ast.NotIn)) and ((isinstance(r, tuple) and r[0] == "tuple") or isinstance(r, list)):
+                items = r[1] if isinstance(r, tuple) else r
+                # `x in (a, b)` is `x is a or x == a or ...`: equality, so 0 == False and '' != None
+                def eq(a, b):
+                    if pyval(a)[0] and pyval(b)[0]: return pyval(a)[1] == pyval(b)[1]
+                    return same(a, b)
+                hit = any(eq(l, x) for x in items)
                 return B(hit if isinstance(op, ast.In) else not hit)
             raise Unsupported("comparison")
         if isinstance(e, ast.Call):
